@@ -212,10 +212,12 @@ def run(rep, tier):
                            "hol_theorems_checked": hol_ok, "with_hypotheses": hol_hyp, "with_gaps": hol_gap,
                            "holrand_events_with_20+_subterms": big, "uf_events": len(events["uf"])}
     tr = rep.notes["traces"]
-    require(tr["core"]["nontrivial"] >= (8000 if quick else 47000), "C17: too few core events examined")
-    require(n_f_expl >= 500 and n_lazy >= 1000, "C17: explanations through congruence / lazy constants not exercised")
-    require(hol_ok >= 300 and hol_hyp >= 50 and hol_gap >= 50 and big >= 20, "C17: too few HOL explanations examined %s" % rep.notes["counts"])
-    require(tr["uf"]["nontrivial"] >= 50, "C17: too few union-find events examined")
+    if not rep.violations:
+        # vacuity guards apply to a run that reports no violation (a run with violations exits 1 whatever was covered)
+        require(tr["core"]["nontrivial"] >= (8000 if quick else 47000), "C17: too few core events examined")
+        require(n_f_expl >= 500 and n_lazy >= 1000, "C17: explanations through congruence / lazy constants not exercised")
+        require(hol_ok >= 300 and hol_hyp >= 50 and hol_gap >= 50 and big >= 20, "C17: too few HOL explanations examined %s" % rep.notes["counts"])
+        require(tr["uf"]["nontrivial"] >= 50 and tr["core_c4"]["nontrivial"] >= 150, "C17: too few union-find / 4-constant events examined")
     # ------------------------------------------------------------------ binding self-tests: corrupt one recorded field
     bad = {"TestComplete": [], "TestSound": [], "ExplainEntails": [], "ExplainMerged": [], "HolTest": [], "HolStates": [], "HolHyps": [],
            "UfPartition": []}
